@@ -58,6 +58,10 @@ void generate(Rng& r, Workload& w, int tier) {
 struct TrackedIL : sim::Tracked {
     TrackedIL(int k, int id) : sim::Tracked(k, id) {}
     TrackedIL(std::initializer_list<int>) : sim::Tracked(-4242, -4242) {}
+    // ... and which overloads unary operator& (smart-pointer style): generic code must use std::addressof
+    int amp_target = 0;
+    int* operator&() { return &amp_target; }
+    const int* operator&() const { return &amp_target; }
 };
 template <class T> T make(int v);
 template <> TrackedIL make<TrackedIL>(int v);
